@@ -119,10 +119,10 @@ def main():
             na.append({"property_id": pid, "reason": PENDING.get(pid, "check not built yet in this round (planned in DESIGN.md §5); not claimed until its harness exists")})
     m = {
         "version": 1,
-        "setup_cmd": "cd /verif/harness && CARGO_NET_OFFLINE=true cargo build --release --offline && (/verif/.target/release/nexrad-mc C20 quick >/dev/null 2>&1 || true)",
+        "setup_cmd": "/verif/check C12 quick >/dev/null 2>&1; (/verif/check C20 quick >/dev/null 2>&1 || true)",
         "hooks": {
             "guard": "cargo feature `verif-hooks` on nexrad-data",
-            "enable": "the harness crate depends on /repo/nexrad-data by path with features = [\"verif-hooks\"]; env NEXRAD_VERIF_S3_ENDPOINT selects the loopback S3 simulator",
+            "enable": "the harness crate depends on /repo/nexrad-data by path and enables its verif-hooks feature (harness features full and v-aws); env NEXRAD_VERIF_S3_ENDPOINT selects the loopback S3 simulator",
             "baseline_off_cmd": "cd /repo && cargo test --workspace --no-fail-fast --offline",
             "source_commits": HOOK_COMMITS,
             "add_only": True,
